@@ -202,6 +202,17 @@ class Runner:
             if ev["ok"]:
                 self.round_trip_tail(evs, obj, cls, root)
             session("parse", evs)
+            if st["d"] <= 1 and evs[0]["ok"]:
+                # the same input parsed again after the first parsed object was wrecked in place: nothing mutable may
+                # be shared between the results of two structure() calls (module-level defaults, cached containers)
+                ev1, obj1 = self.ev_structure(w, cls, root)
+                if ev1["ok"]:
+                    n = scramble(obj1)
+                    ev3, obj3 = self.ev_structure(w, cls, root)
+                    evs2 = [ev1, {"e": "Scramble", "n": n}, ev3]
+                    if ev3["ok"]:
+                        evs2.append(self.ev_unstructure(obj3, cls, root)[0])
+                    session("reparse", evs2)
             evs = []
             ev, obj = self.ev_construct(o, root)
             evs.append(ev)
@@ -265,6 +276,15 @@ class Runner:
         elif sk in ("intval", "lit"):
             out.append(self.ev_structure(evs[0]["j"], cls, root)[0])
             out.append(self.ev_construct(evs[1]["o"], root)[0])
+        elif sk == "reparse":
+            ev1, obj1 = self.ev_structure(evs[0]["j"], cls, root)
+            out.append(ev1)
+            if ev1["ok"]:
+                out.append({"e": "Scramble", "n": scramble(obj1)})
+                ev3, obj3 = self.ev_structure(evs[0]["j"], cls, root)
+                out.append(ev3)
+                if ev3["ok"]:
+                    out.append(self.ev_unstructure(obj3, cls, root)[0])
         elif sk == "mutate":
             before, name = evs[0]["o"], next(e["name"] for e in evs if e["e"] == "Assign")
             after = next(e["o"] for e in evs if e["e"] == "Assign")
@@ -281,6 +301,34 @@ class Runner:
                     if ev3["ok"]:
                         out.append(self.ev_unstructure(obj3, cls, root)[0])
         return {"sid": 1, "sk": sk, "root": root, "var": sess["var"], "d": sess.get("d", 0), "ev": out}
+
+
+def scramble(obj, depth=0, seen=None):
+    """Wreck a parsed object in place: every list gets a foreign element, every dict a foreign key, every attribute
+    of every attrs instance that holds a container or instance is visited.  Returns the number of changes."""
+    import attrs
+    seen = seen if seen is not None else set()
+    if id(obj) in seen or depth > 12:
+        return 0
+    seen.add(id(obj))
+    n = 0
+    if isinstance(obj, list):
+        for x in list(obj):
+            n += scramble(x, depth + 1, seen)
+        obj.append("verif-scrambled")
+        n += 1
+    elif isinstance(obj, dict):
+        for x in list(obj.values()):
+            n += scramble(x, depth + 1, seen)
+        obj["verif-scrambled"] = "verif-scrambled"
+        n += 1
+    elif isinstance(obj, tuple):
+        for x in obj:
+            n += scramble(x, depth + 1, seen)
+    elif attrs.has(type(obj)):
+        for a in attrs.fields(type(obj)):
+            n += scramble(getattr(obj, a.name, None), depth + 1, seen)
+    return n
 
 
 def _has_opaque(n):
@@ -329,7 +377,7 @@ CHUNK_BYTES = 8 * 1024 * 1024
 
 
 # what a replay needs to reproduce the process the session ran in
-RUN_ENV = {"cfg": os.environ.get("VERIF_CONV_CFG", "default"), "hs": os.environ.get("PYTHONHASHSEED", "0")}
+RUN_ENV = {"cfg": os.environ.get("VERIF_CONV_CFG", "default"), "hs": os.environ.get("PYTHONHASHSEED", "0"), "O": os.environ.get("PYTHONOPTIMIZE", "")}
 
 
 def main(argv):
